@@ -68,7 +68,16 @@ def make_func(fvals, kind, calls):
             raise TypeError("not vectorised")
         return np.array([table[int(np.floor(np.atleast_1d(x["x"])[0]))]])
 
-    return {"vec": vec, "scalar": scalar, "arr1": arr1}[kind]
+    def approx(x):
+        # a function whose array path is only approximately its pointwise value (a float32 kernel, say): the values the
+        # batch interface owes are the POINTWISE ones, which nessai obtains by not treating such a function as vectorised
+        calls.append(int(np.size(x)))
+        if np.size(x) == 1:
+            v = table[int(np.floor(np.atleast_1d(x["x"])[0]))]
+            return float(v) if np.ndim(x) == 0 else np.array([v])
+        return table[np.floor(x["x"]).astype(int)] * (1.0 + 2.0 ** -22) + 2.0 ** -30
+
+    return {"vec": vec, "scalar": scalar, "arr1": arr1, "approx": approx}[kind]
 
 
 class TModel(Model):
@@ -178,6 +187,17 @@ def run_case(c):
             out = [float(v) for v in np.asarray(out).tolist()]
             res = {"out": out, "ref": ref, "delta": int(m.likelihood_evaluations - before),
                    "calls": calls[ncalls0:], "vectorised": bool(m.allow_vectorised and m.vectorised_likelihood)}
+            if c.get("reuse") and c["n"] >= 2 and c["which"] != "single":
+                # the same buffer, refilled in place with the points in reverse order, evaluated again
+                x[...] = x[::-1].copy()
+                if c["which"] == "likelihood":
+                    out2 = m.batch_evaluate_log_likelihood(x, unit_hypercube=bool(c.get("unit")))
+                elif c["which"] == "prior_uh":
+                    out2 = m.batch_evaluate_log_prior_unit_hypercube(x)
+                else:
+                    out2 = m.batch_evaluate_log_prior(x, unit_hypercube=bool(c.get("unit")))
+                res["out2"] = [float(v) for v in np.asarray(out2).tolist()]
+                res["ref2"] = ref[::-1]
         except Exception as e:
             res = {"error": err_name(e)}
         finally:
